@@ -255,6 +255,9 @@ CLAIMS['C02']['text'] += ' C02_source_conditional_request: withConditionalHeader
 CLAIMS['C08']['text'] += ' C08_source_fix_date_header: FixDateHeader re-derived from internal/clock.go and proved equal to fix_date_header.'
 CLAIMS['C13']['text'] += ' C13_source_window: CanStaleOnError re-derived from internal/cacheabilityevaluator.go and proved equal to can_stale_on_error.'
 CLAIMS['C01']['text'] += ' C01_source_timed_call: roundTripTimed (the clock readings around the origin call, the Date repair) re-derived from roundtripper.go; syntactically the model\'s round_trip_timed.'
+CLAIMS['C05']['text'] += (' C05_history: over every sequential history from the empty store, an answer given without contacting the origin is the 504 or has the status and body of a full reply of a logged origin call and, '
+                          'for every field name other than Age, the two status fields and the names of a qualified no-cache, the values of a stored entry whose header block is that reply\'s (Date repaired, hop-by-hop fields removed) '
+                          'or such a block with the fields of logged 304s merged in (Src).')
 for _pid in ('C07', 'C19'):
     CLAIMS[_pid]['text'] += (' %s_source_invalidation: InvalidateCache and invalidateLocationHeaders (which keys are deleted, in which order, after which reads of the store, none twice) '
                              'are re-derived from internal/cacheinvalidator.go by translate/inval.go before every build and proved equal up to peq to invalidate_cache (Proofs/TieInval.v).' % _pid)
